@@ -13,7 +13,7 @@ _LTOK = re.compile(r"""
   | (?P<comment>/\*.*?\*/)
   | (?P<ref>\#[0-9]+)
   | (?P<number>[+-]?[0-9]+(?:\.[0-9]*)?(?:E[+-]?[0-9]+)?)
-  | (?P<string>'(?:[^']|'')*')
+  | (?P<string>'(?:\\X[24]\\[0-9A-F]*\\X0\\|\\X\\[0-9A-F][0-9A-F]|\\P[A-I]\\|\\S\\.|\\\\|[^'\\]|''|\\)*')
   | (?P<binary>"[0-9A-F]*")
   | (?P<enum>\.[A-Za-z_][A-Za-z0-9_]*\.)
   | (?P<keyword>!?[A-Za-z_][A-Za-z0-9_\-]*)
